@@ -24,8 +24,10 @@ extern "C" int LLVMFuzzerInitialize(int*, char***) {
 extern "C" int LLVMFuzzerTestOneInput(const uint8_t* data, size_t size) {
     S.inputs++;
     if (size < 8) return 0;
+    FuzzedDataProvider fdp(data, size);
     // ---- header: configuration of the pool under test
-    uint8_t h0 = data[0], h1 = data[1];
+    std::vector<uint8_t> hdr = fdp.ConsumeBytes<uint8_t>(2);
+    uint8_t h0 = hdr[0], h1 = hdr[1];
     pool_cfg[0] = PoolCfg{(uint8_t)(h0 & 7), (uint8_t)((h0 >> 3) & 3) == 3 ? (uint8_t)0 : (uint8_t)((h0 >> 3) & 3), (uint8_t)((h0 >> 5) & 3), (uint8_t)(h0 >> 7), 0, 1, 0};
     pool_cfg[1] = pool_cfg[0];
     g_leave_live = h1 & 1;
@@ -33,10 +35,10 @@ extern "C" int LLVMFuzzerTestOneInput(const uint8_t* data, size_t size) {
     g_case.clear();
     { char b[96]; snprintf(b, sizeof b, "C17 trace: leave_live_at_destroy=%d\n", (int)g_leave_live); g_case += b; }
     begin_run();
-    const uint8_t* q = data + 2; size_t n = (size - 2) / 6;
-    if (n > (size_t)MAX_OPS) n = MAX_OPS;
     std::vector<Op> ops;
-    for (size_t i = 0; i < n; i++, q += 6) {
+    while (fdp.remaining_bytes() >= 6 && ops.size() < (size_t)MAX_OPS) {
+        std::vector<uint8_t> rec = fdp.ConsumeBytes<uint8_t>(6);
+        const uint8_t* q = rec.data();
         Op o{};
         o.kind = KIND_TAB[q[0] & 31];
         o.thr = (q[1] & 3) == 3;                       // a quarter of the operations run on the helper thread
